@@ -25,11 +25,14 @@ RULE = ("Hypothesis draws molecules / zero-padded batches (neutrals, ions, UHF r
         "solver {fixed mixing alpha in [0,0.9], adaptive, Pulay} x {diagonalisation, SP2 tol 1e-3..1e-7} x eps 1e-4..1e-11 x "
         "initial density {default guess, converged density of a neighbouring geometry, that + symmetric noise, non-idempotent "
         "mixture, wrong-trace scaling} x iteration cap {1,2,5,20,1000}. non-trivial = padding or ion or UHF or non-default "
-        "start or cap below 1000; distinct = case hash")
+        "start or cap below 1000; distinct = case hash. finite_temperature: 1-3 closed-shell neutrals / ions in a zero-padded batch x "
+        "T_el in {300..20000 K} x fixed / adaptive mixing; non-trivial = rows of different orbital count, padding or an ion")
 ASSUMPTIONS = ["Fock operator rebuilt by the independent reference: residual floor 2e-5 eV (10x the reference's measured accuracy)",
                "bounds: commutator and idempotency <= 400*(eps + sp2_tol_eff)/(1-alpha) + floor; calibrated maxima on the unchanged "
                "tree are reported in the evidence (largest_observed)",
-               "KSA (scf_converger=[3,...]) is not generated here"]
+               "KSA (scf_converger=[3,...]) is not generated here",
+               "finite_temperature: the returned density is compared with the Fermi-occupied density (bisection for mu, k_B = 8.61739e-5 eV/K as in the "
+               "code) of the reference Fock operator of that density; bounds floor + 200 eps/(1-alpha) (fermi), 2000 eps/(1-alpha) (commutator)"]
 
 FLOOR = 2e-5
 
@@ -274,4 +277,112 @@ class SelfConsistent(SubCheck):
             yield dict(case, conv=[1])
 
 
-SUBCHECKS = [SelfConsistent()]
+# ------------------------------------------------------------------------------------------------- finite electronic temperature
+KB = 8.61739e-5     # eV/K, the constant the code passes to Fermi_Q
+
+
+@st.composite
+def _tcase(draw):
+    method = draw(st.sampled_from(["MNDO", "AM1", "PM3"]))
+    rows = []
+    for _ in range(draw(st.integers(1, 3))):
+        kind = draw(st.sampled_from(["neutral", "neutral", "ion"]))
+        pool = [t for t in M.names(method, (kind,), 5, 1) if M.n_orbitals(t) <= 20]
+        rows.append({"method": method, "tpl": draw(st.sampled_from(pool)), "amp": 0.0})
+    rows.sort(key=lambda r: -len(M.ALL[r["tpl"]]["Z"]))
+    kind = draw(st.sampled_from([0, 0, 1]))
+    return {"rows": rows, "order": draw(st.integers(0, 1)), "padw": draw(st.integers(0, 2)), "T": draw(st.sampled_from([300.0, 1500.0, 5000.0, 10000.0, 20000.0])),
+            "conv": [kind, draw(st.sampled_from([0.0, 0.2, 0.5])) if kind == 0 else 0.0], "eps": 10.0 ** (-draw(st.integers(6, 10)))}
+
+
+def _fermi_density(F, nel, T):
+    ev, C = np.linalg.eigh(F)
+    beta = 1.0 / (KB * T)
+    lo, hi = ev[0] - 50.0, ev[-1] + 50.0
+    for _ in range(200):
+        mu = 0.5 * (lo + hi)
+        f = 1.0 / (1.0 + np.exp(np.clip(beta * (ev - mu), -700, 700)))
+        if 2.0 * f.sum() > nel:
+            hi = mu
+        else:
+            lo = mu
+    return 2.0 * (C * f) @ C.T, f
+
+
+class FiniteTemperature(SubCheck):
+    """scf_converger = [kind, alpha, 'T_el', T]: the converged density is the Fermi-occupied density of its own Fock operator,
+    holds the right number of electrons and nothing on padding orbitals -- per row of a zero-padded batch."""
+    name = "finite_temperature"
+    budget = {"quick": 240, "thorough": 8000}
+    weight = 1.0
+
+    def strategy(self, tier):
+        return _tcase()
+
+    def oracle(self, case):
+        from .. import refnddo as R
+
+        mols = list(case["rows"])
+        if case["order"]:
+            mols = mols[::-1]
+        rows = []
+        for mc in mols:
+            Z, x = M.geometry(mc)
+            rows.append((list(Z), x, M.ALL[mc["tpl"]]["charge"]))
+        width = max(len(r[0]) for r in rows) + case["padw"]
+        Sx, X = pad_batch([(r[0], r[1]) for r in rows], width=width)
+        conv = [case["conv"][0], case["conv"][1], "T_el", case["T"]]
+        padded = any(len(r[0]) < width for r in rows) or len({M.n_orbitals(m["tpl"]) for m in mols}) > 1
+        labels = ["method:" + mols[0]["method"], "T:%g" % case["T"], "conv:%d" % case["conv"][0], "rows:%d" % len(rows), "padded_orbitals:%s" % padded,
+                  "ion:%s" % any(r[2] != 0 for r in rows)]
+        nontrivial = padded or any(r[2] != 0 for r in rows)
+        try:
+            r = run_sp(Sx, X, method=mols[0]["method"], eps=case["eps"], conv=conv, sp2=[False], charges=np.array([q for _, _, q in rows]))
+        except Exception as e:
+            return Outcome.fail(f"exception:{type(e).__name__}", f"{type(e).__name__}: {str(e)[:200]}", labels, nontrivial)
+        nc = notconv(r)
+        alpha = case["conv"][1] if case["conv"][0] == 0 else 0.0
+        e = case["eps"] / (1.0 - alpha)
+        info = {}
+        for b, (Z, x, Q) in enumerate(rows):
+            if nc[b]:
+                labels.append("flag:notconverged")
+                continue
+            n = len(Z)
+            nel = sum(M.VALENCE[z] for z in Z) - Q
+            P = tonp(r.mol.dm[b])
+            if not np.isfinite(P).all():
+                return Outcome.fail("nonfinite_flagged_converged", f"row {b}: NaN/inf in the density with notconverged False", labels, nontrivial)
+            ref = R.Model(mols[b]["method"], list(Z), np.asarray(x))
+            Pr = ref.from_seqm_P(P)
+            outside = float(np.abs(P).sum() - np.abs(Pr).sum())
+            tr = abs(np.trace(Pr) - nel)
+            qsum = abs(float(tonp(r.mol.q[b])[:n].sum()) - Q)
+            F = ref.fock(Pr)
+            comm = float(np.abs(F @ Pr - Pr @ F).max())
+            Pf, f = _fermi_density(F, nel, case["T"])
+            fermi = float(np.abs(Pf - Pr).max())
+            res = {"trace": tr, "charge_sum": qsum, "commutator": comm, "fermi_density": fermi}
+            bounds = {"trace": 1e-7 + 200 * e, "charge_sum": 1e-7 + 200 * e, "commutator": FLOOR + 2000 * e, "fermi_density": FLOOR + 200 * e}
+            for k, v in res.items():
+                info["ratio_" + k] = max(info.get("ratio_" + k, 0.0), v / bounds[k])
+            if outside > 1e-12:
+                return Outcome.fail("density_on_padding_orbitals:finiteT", f"row {b} ({mols[b]['tpl']}, T={case['T']:g} K): density outside the real orbitals, sum |P| = {outside:.3e}", labels, nontrivial)
+            for k in ("trace", "charge_sum", "commutator", "fermi_density"):
+                if res[k] > bounds[k]:
+                    return Outcome.fail(f"converged_but_{k}_residual:finiteT", f"row {b} ({mols[b]['tpl']}, charge {Q}, T={case['T']:g} K, batch {[m['tpl'] for m in mols]}, padw {case['padw']}) flagged converged: {k} residual {res[k]:.3e} > bound {bounds[k]:.3e}; all: "
+                                        + ", ".join(f"{a}={v:.2e}" for a, v in res.items()), labels, nontrivial, **{k: res[k]})
+            labels.append("flag:converged")
+            if bool(((f > 1e-6) & (f < 1 - 1e-6)).any()):
+                labels.append("fractional_occupations")
+        return Outcome.ok(nontrivial, labels, **info)
+
+    def simplify(self, case):
+        if len(case["rows"]) > 1:
+            for i in range(len(case["rows"])):
+                yield dict(case, rows=case["rows"][:i] + case["rows"][i + 1:])
+        if case["padw"]:
+            yield dict(case, padw=0)
+
+
+SUBCHECKS = [SelfConsistent(), FiniteTemperature()]
